@@ -171,12 +171,24 @@ func runC14(c *ctx) error {
 					s2.Plugins = nil
 				}
 			}
-			if s2.Matrix.IsEmpty() {
-				if s2.Matrix == nil {
-					s2.Matrix = &pipeline.Matrix{}
-				} else {
-					s2.Matrix = nil
+			// (emptiness judged here, not by the library's IsEmpty: no setup dimension, no adjustment, nothing else)
+			if m := s2.Matrix; m == nil || (len(m.Setup) == 0 && len(m.Adjustments) == 0 && len(m.RemainingFields) == 0) {
+				// every spelling of `no matrix`: nil, the zero struct, empty non-nil containers
+				spellings := []*pipeline.Matrix{
+					nil,
+					{},
+					{Setup: pipeline.MatrixSetup{}},
+					{Adjustments: pipeline.MatrixAdjustments{}},
+					{Setup: pipeline.MatrixSetup{}, Adjustments: pipeline.MatrixAdjustments{}, RemainingFields: map[string]any{}},
 				}
+				pick := spellings[rng.Intn(len(spellings))]
+				if (pick == nil) == (m == nil) && rng.Intn(2) == 0 {
+					pick = spellings[(rng.Intn(len(spellings)-1)+1)%len(spellings)]
+				}
+				if pick == nil && m == nil {
+					pick = spellings[1+rng.Intn(len(spellings)-1)]
+				}
+				s2.Matrix = pick
 			}
 			var pe map[string]string
 			if len(penv) == 0 {
